@@ -16,6 +16,7 @@
 #pragma once
 
 #include <cmath>
+#include <cstring>
 #include <functional>
 #include <map>
 #include <memory>
@@ -60,6 +61,7 @@
 #include "celeritas/track/StatusChecker.hh"
 #include "celeritas/track/TrackInitParams.hh"
 #include "celeritas/user/ActionDiagnostic.hh"
+#include "celeritas/user/DetectorSteps.hh"
 #include "celeritas/user/SimpleCalo.hh"
 #include "celeritas/user/StepCollector.hh"
 #include "celeritas/user/StepDiagnostic.hh"
@@ -552,6 +554,10 @@ class Recorder final : public StepInterface
     void process_steps(HostStepState st) final
     {
         auto const& d = st.steps.data;
+        if (track_presence)
+            note_presence(d);
+        if (run_copy_steps && !d.detector.empty())
+            check_copy_steps(st);
         std::vector<StepRec>& steps
             = (split_streams && st.stream_id.unchecked_get() > 0)
                   ? per_stream.at(st.stream_id.unchecked_get() - 1)
@@ -607,6 +613,118 @@ class Recorder final : public StepInterface
         }
     }
     void process_steps(DeviceStepState) final {}
+
+    //! (C17) which collections were non-empty in this call: bit k = flag k in the order
+    //! event_id, parent_id, track_step_count, action_id, step_length, particle,
+    //! energy_deposition, pre.{time,pos,dir,volume_id,energy}, post.{time,pos,dir,volume_id,energy}
+    template<class D>
+    void note_presence(D const& d)
+    {
+        uint32_t m = 0;
+        int k = 0;
+        auto bit = [&](bool nonempty) { m |= uint32_t(nonempty) << k++; };
+        bit(!d.event_id.empty());
+        bit(!d.parent_id.empty());
+        bit(!d.track_step_count.empty());
+        bit(!d.action_id.empty());
+        bit(!d.step_length.empty());
+        bit(!d.particle.empty());
+        bit(!d.energy_deposition.empty());
+        for (auto sp : range(StepPoint::size_))
+        {
+            auto const& p = d.points[sp];
+            bit(!p.time.empty());
+            bit(!p.pos.empty());
+            bit(!p.dir.empty());
+            bit(!p.volume_id.empty());
+            bit(!p.energy.empty());
+        }
+        present_or |= m;
+        present_and &= m;
+    }
+
+    //! (C17) run the real copy_steps() (DetectorSteps.cc) into a REUSED output object and
+    //! compare it element by element with the raw slots that carry a valid detector id
+    void check_copy_steps(HostStepState st)
+    {
+        auto const& d = st.steps.data;
+        copy_steps(&copy_out, st.steps);
+        ++copy_steps_calls;
+        std::string bad;
+        auto fail = [&](char const* what, size_t k, unsigned slot) {
+            if (bad.empty())
+                bad = std::string(what) + " at output element " + std::to_string(k) + " (slot "
+                      + std::to_string(slot) + ")";
+        };
+        size_t nvalid = 0;
+        for (TrackSlotId::size_type i = 0; i < d.size(); ++i)
+            nvalid += bool(d.detector[TrackSlotId{i}]);
+        auto same = [](auto const& a, auto const& b) {
+            static_assert(sizeof(a) == sizeof(b), "same type");
+            return std::memcmp(&a, &b, sizeof(a)) == 0;
+        };
+        // each output vector: empty iff the source collection is empty, else one element per
+        // valid slot in slot order
+        auto field = [&](auto const& out, auto const& src, char const* what) {
+            if (src.empty())
+            {
+                if (!out.empty())
+                    fail((std::string(what) + ": not gathered but output not empty").c_str(), 0, 0);
+                return;
+            }
+            if (out.size() != nvalid)
+            {
+                fail((std::string(what) + ": output size " + std::to_string(out.size()) + " != "
+                      + std::to_string(nvalid) + " slots with a detector")
+                         .c_str(),
+                     0, 0);
+                return;
+            }
+            size_t k = 0;
+            for (TrackSlotId::size_type i = 0; i < d.size(); ++i)
+            {
+                TrackSlotId ts{i};
+                if (!d.detector[ts])
+                    continue;
+                if (!same(out[k], src[ts]))
+                    fail(what, k, i);
+                ++k;
+            }
+        };
+        field(copy_out.detector, d.detector, "detector");
+        field(copy_out.track_id, d.track_id, "track_id");
+        for (auto sp : range(StepPoint::size_))
+        {
+            bool pre = sp == StepPoint::pre;
+            field(copy_out.points[sp].time, d.points[sp].time, pre ? "pre.time" : "post.time");
+            field(copy_out.points[sp].pos, d.points[sp].pos, pre ? "pre.pos" : "post.pos");
+            field(copy_out.points[sp].dir, d.points[sp].dir, pre ? "pre.dir" : "post.dir");
+            field(copy_out.points[sp].energy, d.points[sp].energy, pre ? "pre.energy" : "post.energy");
+        }
+        field(copy_out.event_id, d.event_id, "event_id");
+        field(copy_out.parent_id, d.parent_id, "parent_id");
+        field(copy_out.track_step_count, d.track_step_count, "track_step_count");
+        field(copy_out.step_length, d.step_length, "step_length");
+        field(copy_out.particle, d.particle, "particle");
+        field(copy_out.energy_deposition, d.energy_deposition, "energy_deposition");
+        if (copy_out.size() != nvalid || bool(copy_out) != (nvalid > 0))
+            fail("size()/operator bool", 0, 0);
+        copy_steps_elements += nvalid;
+        if (!bad.empty())
+        {
+            ++copy_steps_errors;
+            if (copy_steps_first.empty())
+                copy_steps_first = bad;
+        }
+    }
+
+    // (C17) optional self-checks, off by default
+    bool track_presence{false};
+    uint32_t present_or{0}, present_and{~uint32_t(0)};
+    bool run_copy_steps{false};
+    DetectorStepOutput copy_out;  // reused across calls on purpose (stale contents / resize)
+    uint64_t copy_steps_calls{0}, copy_steps_elements{0}, copy_steps_errors{0};
+    std::string copy_steps_first;
 
     Filters filters_;
     StepSelection selection_{StepSelection::all()};
